@@ -279,7 +279,7 @@ def run(ctx):
         "opts": {"time_horizon": 30.0, "drain": 2.0, "max_points": 8000, "free_switch_cost": 1,
                  "time_jump_cost": None if ctx.quick else 1,
                  "thread_start_faults": bool(params.get("faults"))},
-        "budget": 3000 if ctx.quick else 20000,
+        "budget": 3000 if ctx.quick else 8000,
     } for params in scenario_params(ctx.tier)]
     ctx.pmap(H.shard, specs)
     H.finish(
